@@ -133,16 +133,20 @@ POSCOH_ATTRS = ["Gxy_dev", "Hxy_dev", "coh_dev", "Gxy_error", "Hxy_mag_error", "
 
 
 def finite_scenario(item):
-    """Finite inputs (all-zero, constant, identical channels, random): every estimate finite, in two access orders."""
+    """Finite inputs (all-zero, constant, identical channels, random): every estimate finite, in two access orders.
+    plan "N64": default window on a short record; "hann"/"bartlett": a coarse plan on a longer record whose top bins have
+    L = 2, where these windows vanish identically (sum w^2 = 0), plus single-bin requests with L = 1, 2, 3."""
     import speckit
-    kind, mode, order, backend, first = item
+    kind, mode, order, backend, first = item[:5]
+    plan = item[5] if len(item) > 5 else "N64"
+    n = N if plan == "N64" else 5000
     rng = np.random.default_rng(7)
-    a = {"zero": np.zeros(N), "const": np.full(N, 3.0), "random": rng.standard_normal(N), "ramp": np.arange(N, dtype=float)}[kind]
-    b = {"zero": np.zeros(N), "const": np.full(N, -2.0), "random": a.copy(), "ramp": rng.standard_normal(N)}[kind]
+    a = {"zero": np.zeros(n), "const": np.full(n, 3.0), "random": rng.standard_normal(n), "ramp": np.arange(n, dtype=float)}[kind]
+    b = {"zero": np.zeros(n), "const": np.full(n, -2.0), "random": a.copy(), "ramp": rng.standard_normal(n)}[kind]
     data = a if mode == "auto" else np.vstack([a, b])
     probs = []
-    with np.errstate(all="ignore"):
-        r = speckit.compute_spectrum(data, 1.0, order=order, backend=backend, Jdes=10, Kdes=3, olap=0.5, scheduler="ltf")
+
+    def scan(r, tag):
         names = (POSCOH_ATTRS + FINITE_ATTRS) if first == "errors_first" else (FINITE_ATTRS + POSCOH_ATTRS)
         vals = {}
         for nm in names:
@@ -154,13 +158,27 @@ def finite_scenario(item):
         for nm in FINITE_ATTRS:
             v = vals[nm]
             if v is not None and not np.all(np.isfinite(v)):
-                probs.append(("non_finite_output", nm))
+                probs.append(("non_finite_output" + tag, nm))
         if mode == "csd":
             pos = np.asarray(coh) > 0
             for nm in POSCOH_ATTRS:
                 v = np.asarray(vals[nm])
                 if not np.all(np.isfinite(v[pos])):
-                    probs.append(("non_finite_error_bar_at_positive_coherence", nm))
+                    probs.append(("non_finite_error_bar_at_positive_coherence" + tag, nm))
+
+    with np.errstate(all="ignore"):
+        if plan == "N64":
+            scan(speckit.compute_spectrum(data, 1.0, order=order, backend=backend, Jdes=10, Kdes=3, olap=0.5, scheduler="ltf"), "")
+        else:
+            win = "hann" if plan == "hann" else np.bartlett
+            sched = ["ltf", "lpsd", "vectorized_ltf"][(order + 1) % 3]
+            an = speckit.SpectrumAnalyzer(data, 10.0, order=order, backend=backend, Jdes=8, Kdes=3, olap=0.5, scheduler=sched, win=win)
+            r = an.compute()
+            if int(np.min(r.L)) > 2:
+                probs.append(("harness_expected_a_bin_with_L_2", "L"))
+            scan(r, "")
+            for L in (1, 2, 3):
+                scan(an.compute_single_bin(2.0, L=L), f"_single_bin_L{L}")
     return probs
 
 
@@ -202,11 +220,12 @@ def run(tier):
                         {"kind": "input_trace", "event": e, "message": f"InputTrace rejected {e}: {clause}"})
     fin = [(k, m, o, b, f) for k in ("zero", "const", "random", "ramp") for m in ("auto", "csd") for o in (-1, 0, 1, 2)
            for b in ("numba", "numpy") for f in ("values_first", "errors_first", "frame_first")]
+    fin = fin + [it + (pl,) for it in fin for pl in ("hann", "bartlett") if it[4] != "errors_first" or tier == "thorough"]
     out = common.pmap(finite_scenario, fin, chunksize=8)
     for it, probs in zip(fin, out):
         V.case({"finite": it}, True)
         for clause, nm in probs:
-            V.violation(f"{PID}|finite|{clause}|{it[0]}|{it[1]}|{nm}|{it[4]}",
+            V.violation(f"{PID}|finite|{clause}|{it[0]}|{it[1]}|{nm}|{it[4]}|{it[5] if len(it) > 5 else 'N64'}",
                         {"kind": "finite_scenario", "item": it, "clause": clause, "name": nm,
                          "message": f"{clause}: attribute {nm} for {it[0]} {it[1]} record, order={it[2]}, backend={it[3]}, access order {it[4]}"})
     V.assumptions += ["bitwise comparison with the zero-filled canonical run is made on the same backend and order (same machine code)",
